@@ -120,8 +120,14 @@ func run(c *core.Case, id string, gcHeavy bool) {
 	}
 	nontrivial := false
 	tainted := map[string]string{}
+	hotRouting := gcHeavy && cfg.HotRing && cfg.Buckets > 1
 	pick := func() (ck, bool) {
 		if cfg.Controlled {
+			if hotRouting && rng.Intn(100) < 35 {
+				// two keys are written again and again: their first values go to a cold
+				// value-log bucket, the later ones to the hot bucket
+				return cks[rng.Intn(2)], true
+			}
 			return cks[rng.Intn(len(cks))], true
 		}
 		for try := 0; try < 8; try++ {
@@ -336,6 +342,7 @@ func run(c *core.Case, id string, gcHeavy bool) {
 		return true
 	}
 
+	bucketsOf := map[string]map[uint32]bool{}
 	for i := 0; i < nOps; i++ {
 		r := rng.Intn(100)
 		switch {
@@ -367,6 +374,24 @@ func run(c *core.Case, id string, gcHeavy bool) {
 			m.ops = append(m.ops, i)
 			env.Trace = append(env.Trace, rec)
 			c.Count("writes", 1)
+			if gcHeavy && cfg.HotRing && cfg.Buckets > 1 {
+				// which value-log bucket did this value go to? (hot/cold routing moves a
+				// key's newer values to another bucket than its older ones)
+				if src := env.DB.VerifKeySources(k.cf, k.key); len(src) > 0 && len(src[0].Entries) > 0 && src[0].Entries[0].Pointer {
+					b := src[0].Entries[0].Bucket
+					id := mk(k.cf, k.key)
+					if bucketsOf[id] == nil {
+						bucketsOf[id] = map[uint32]bool{}
+					}
+					if !bucketsOf[id][b] {
+						bucketsOf[id][b] = true
+						if len(bucketsOf[id]) == 2 {
+							c.Count("keys_whose_values_crossed_value_log_buckets", 1)
+						}
+					}
+					c.Count(fmt.Sprintf("separated_values_written_to_bucket_%d", b), 1)
+				}
+			}
 		case r < 72:
 			k, ok := pick()
 			if !ok {
